@@ -56,6 +56,8 @@ type Case struct {
 	Cmds     []Cmd   `json:"cmds"`
 	Events   []Event `json:"events"`
 	DelayUs  []int   `json:"delayUs"` // per node request latency
+	// Rejoin: scripted history in which a node loses all its slots and gets one back
+	Rejoin bool `json:"rejoin,omitempty"`
 }
 
 func slotOf(i int) int { return int(hashslot.Slot([]byte(keyPool[i]))) }
@@ -96,6 +98,37 @@ func genCase(t *rapid.T) Case {
 	}
 	for i := 0; i < c.Nodes; i++ {
 		c.DelayUs = append(c.DelayUs, rapid.SampledFrom([]int{0, 0, 200, 1500, 5000}).Draw(t, "delay"))
+	}
+	if rapid.IntRange(0, 5).Draw(t, "nodeLeavesAndRejoins") == 0 {
+		// a node that owns a single slot: a slot migrates to it (redirections name it), then everything it owns migrates away (it drops
+		// out of CLUSTER SLOTS), then a slot comes back to it (redirections name it again)
+		ka := rapid.IntRange(0, len(keyPool)-1).Draw(t, "rejoinKeyA")
+		kb := rapid.IntRange(0, len(keyPool)-1).Draw(t, "rejoinKeyB")
+		if slotOf(ka) != slotOf(kb) && slotOf(kb) > 0 && slotOf(kb) < 16383 {
+			c.Nodes, c.Bounds = 3, []int{slotOf(kb), slotOf(kb) + 1}
+			c.Txn = false
+			c.Batch = uint(rapid.SampledFrom([]int{1, 2, 4}).Draw(t, "rejoinBatch"))
+			home := 0
+			if slotOf(ka) > slotOf(kb) {
+				home = 2
+			}
+			c.Cmds = nil
+			kc := rapid.IntRange(0, len(keyPool)-1).Draw(t, "rejoinKeyC")
+			for i, n := 0, rapid.IntRange(30, 48).Draw(t, "rejoinCmds"); i < n; i++ {
+				c.Cmds = append(c.Cmds, Cmd{Keys: []int{[]int{ka, ka, kb, kc}[rapid.IntRange(0, 3).Draw(t, "rejoinWhich")]}})
+			}
+			r1 := rapid.IntRange(3, 9).Draw(t, "r1")
+			r2 := r1 + rapid.IntRange(6, 14).Draw(t, "r2")
+			r3 := r2 + rapid.IntRange(8, 16).Draw(t, "r3")
+			c.Events = []Event{
+				{AfterReq: r1, Kind: "move", Key: ka, Dst: 1},
+				{AfterReq: r2, Kind: "move", Key: ka, Dst: home},
+				{AfterReq: r2, Kind: "move", Key: kb, Dst: home},
+				{AfterReq: r3, Kind: "move", Key: ka, Dst: 1},
+			}
+			c.DelayUs = []int{0, 0, 0}
+			c.Rejoin = true
+		}
 	}
 	return c
 }
@@ -330,7 +363,17 @@ func run(c Case) (fs []failure, inconc string, facts map[string]bool, hist any) 
 					// have already reached that node directly (pipelined: later batches dispatched after the slot map was refreshed; blocking: a
 					// later command of the same batch that was routed with the refreshed map)
 					sig = "per-key-order-skips:redirect-reexecution"
-					if redirected[k+"\x00"+v] && redirected[k+"\x00"+src[prev+1]] {
+					late := false
+					for _, w := range obs[i+1:] {
+						if w == src[prev+1] {
+							late = true
+						}
+					}
+					if !late && !reported {
+						// NOT the known finding either: there the redirected write is executed again, only too late; here it was answered with a
+						// redirection, never executed anywhere, and Send reported nothing
+						sig = "redirected-write-never-executed"
+					} else if redirected[k+"\x00"+v] && redirected[k+"\x00"+src[prev+1]] {
 						// NOT the known finding: the write that overtook was itself answered with a redirection, i.e. both writes went through the
 						// tool's redirection handling, which re-executes the redirected commands of a node's replies one by one in reply order
 						sig = "per-key-order-skips:redirected-commands-reordered"
@@ -382,6 +425,7 @@ func check(t pbt.TB, c Case) {
 	}
 	st.ClassIf(c.Txn, "txn")
 	st.ClassIf(c.Pipeline, "pipeline")
+	st.ClassIf(c.Rejoin, "node-leaves-and-rejoins")
 	if facts["redirect"] && facts["spans-nodes"] {
 		st.NonTrivial(cj)
 	} else {
